@@ -85,6 +85,13 @@ func ConnectSession(ctx context.Context, cluster *Cluster, config SessionConfig)
 	case <-ctx.Done():
 		return nil, ctx.Err()
 	case <-session.connected:
+		// Both channels can be ready by the time this goroutine gets to run and `select` would then pick either one:
+		// a failure is always reported before `connected` is closed, so give it precedence.
+		select {
+		case err = <-session.failed:
+			return nil, err
+		default:
+		}
 		return session, nil
 	case err = <-session.failed:
 		return nil, err
